@@ -912,6 +912,18 @@ func (c *tctx) fragment(body *ast.BlockStmt) (string, string, string) {
 					}
 					n++
 				}
+			case *ast.IncDecStmt:
+				if t.Kind == "value" && norm(c.fset, x.X) == t.Pick {
+					if n == t.Nth {
+						op := token.ADD
+						if x.Tok == token.DEC {
+							op = token.SUB
+						}
+						res = &found{path: dom, rhs: &ast.BinaryExpr{X: x.X, Op: op, Y: &ast.BasicLit{Kind: token.INT, Value: "1"}}}
+						return true
+					}
+					n++
+				}
 			case *ast.AssignStmt:
 				if t.Kind == "value" {
 					for i, l := range x.Lhs {
@@ -944,6 +956,37 @@ func (c *tctx) fragment(body *ast.BlockStmt) (string, string, string) {
 			p = por(p, "("+prefix+pe+")")
 		}
 		return "(" + prefix + v + ")", ty, p
+	case "effects":
+		// the store writes of the function, in source order: "Set:<key builder>" / "Delete:<key builder>"
+		var effs []string
+		ast.Inspect(body, func(nd ast.Node) bool {
+			call, ok := nd.(*ast.CallExpr)
+			if !ok {
+				return true
+			}
+			sel, ok := call.Fun.(*ast.SelectorExpr)
+			if !ok || (sel.Sel.Name != "Set" && sel.Sel.Name != "Delete") || len(call.Args) == 0 {
+				return true
+			}
+			recv := norm(c.fset, sel.X)
+			if !strings.HasSuffix(strings.ToLower(recv), "store") {
+				return true
+			}
+			key := norm(c.fset, call.Args[0])
+			if kc, ok := call.Args[0].(*ast.CallExpr); ok {
+				key = norm(c.fset, kc.Fun)
+				if i := strings.LastIndex(key, "."); i >= 0 {
+					key = key[i+1:]
+				}
+			}
+			effs = append(effs, sel.Sel.Name+":"+key)
+			return true
+		})
+		var q []string
+		for _, n := range effs {
+			q = append(q, "\""+strings.ReplaceAll(n, "\"", "'")+"\"%string")
+		}
+		return "[" + strings.Join(q, "; ") + "]", "names", "false"
 	case "names":
 		// the arguments of the first call of t.Pick, as a list of names (decorator chains, message-type lists)
 		var names []string
